@@ -923,7 +923,7 @@ func capturedFieldValue(clos *ssa.Function, fv *ssa.FreeVar, field int) ssa.Valu
 			if _, ok := r.(*ssa.Store); ok {
 				n += 2
 			}
-			if fa, ok := r.(*ssa.FieldAddr); ok {
+			if fa, ok := r.(*ssa.FieldAddr); ok && fa.Field == field {
 				for _, rr := range an.Referrers(fa) {
 					if st, ok := rr.(*ssa.Store); ok && st.Addr == ssa.Value(fa) {
 						n += 2
